@@ -9,15 +9,30 @@ RULES = {
     'C06.R1': 'every non-root node with an Indeterminate cache passes phase_inh -> phase_one -> phase_two (each only if the previous left it Indeterminate) and the result is stored; the only skips are the root and the cached-state arms',
     'C06.R2': 'from an Infeasible classification every path queues the node\'s parent edge for removal and skips its subtree; every queued entry reaches try_remove_child; a cached Infeasible node has its subtree skipped',
     'C06.R3': 'forward_if_redundant(parent of node) is called exactly when the last sibling (n_remaining == 0) has been classified',
+    'C06.R5': 'cache discipline (shared with C05.R2/R3): only the elimination writes verdicts, new nodes start Indeterminate, rewritten nodes are reset or are terminals',
     'C06.R4': 'the cached-state arms perform no mutation of the tree (a second run changes nothing)',
 }
-FLOORS = {'C06.R1': 4, 'C06.R2': 3, 'C06.R3': 1, 'C06.R4': 2}
+FLOORS = {'C06.R1': 4, 'C06.R2': 3, 'C06.R3': 1, 'C06.R4': 2, 'C06.R5': 9}
 EXPLANATION = 'Must-classify / must-remove / must-forward path rules over the traversal loop of infeasible_elimination.'
 DOES_NOT_DECIDE = 'emptiness itself (the LP answer, C10); terminal-count bounds for distilled networks'
 CACHED = {'Infeasible', 'Feasible', 'FeasibleWitness'}
 
 
+def shared_cache_rules(ctx):
+    """C06.R5: effectiveness relies on the cache discipline of C05: a node that was never classified (new, or rewritten) carries
+    Indeterminate, otherwise the cached-state arms skip it and an empty path survives."""
+    from ..core import Ctx
+    from . import c05
+    sub = Ctx(ctx.facts, ctx.tier, ctx.prop)
+    c05.r2(sub)
+    c05.r3(sub)
+    for i in sub.insts:
+        i.rule = 'C06.R5'
+        ctx.insts.append(i)
+
+
 def run(ctx):
+    shared_cache_rules(ctx)
     b = ctx.body('C06.R1', 'AffTree::infeasible_elimination')
     if b is None:
         return
